@@ -120,12 +120,10 @@ class SortedSet(MutableSet, Generic[T]):
         self.values = []
 
         if init_values is not None:
-            sorted_vals = sorted(init_values)
             # check uniqueness
-            self.values.append(sorted_vals[0])
-            for i in range(1, len(sorted_vals)):
-                if sorted_vals[i] != sorted_vals[i - 1]:
-                    self.values.append(sorted_vals[i])
+            for v in sorted(init_values):
+                if len(self.values) == 0 or self.values[-1] != v:
+                    self.values.append(v)
 
     def add(self, value: T) -> None:
         insert_index, already_in = self.insertions_index(value)
